@@ -198,6 +198,7 @@ type QEInfo struct {
 	ID        int
 	RName     string
 	Group     string
+	Parallel  bool // the resource's handler has no group: its callbacks are not ordered
 	Subject   string
 	Start     time.Time
 	StartSeq  uint64
